@@ -344,8 +344,9 @@ def main(argv=None):
         "wall_s": round(time.time() - t0, 2),
         "violations": 1 if exit_code else 0,
     }
-    os.makedirs(os.path.join(VERIF, "evidence"), exist_ok=True)
-    with open(os.path.join(VERIF, "evidence", f"{prop}.json"), "w") as f:
+    evdir = os.environ.get("VERIF_EVIDENCE_DIR") or os.path.join(VERIF, "evidence")  # seeded-change runs write elsewhere
+    os.makedirs(evdir, exist_ok=True)
+    with open(os.path.join(evdir, f"{prop}.json"), "w") as f:
         json.dump(ev, f, indent=1, ensure_ascii=False, default=str)
     for l in lines:
         print(l, flush=True)
